@@ -66,7 +66,12 @@ Record cfg := {
   c_max_keepalive : N; c_allow_zero_len : bool; c_inflight_expiry : N }.
 
 Inductive sub_action := SAccept | SReject (code : N) | SQos (q : N).
-Inductive msg_action := MAccept | MReject (code : N) | MDrop | MRewrite (topic payload : str) (qos : N).
+(* MRewrite: the hook replaced topic, payload, QoS and possibly the RETAIN flag of the message.  The last
+   argument packs the two: qos = qr mod 4, and qr / 4 = 0 leaves the RETAIN flag alone, 1 clears it, 2 sets it. *)
+Inductive msg_action := MAccept | MReject (code : N) | MDrop | MRewrite (topic payload : str) (qr : N).
+Definition rw_qos (qr : N) : N := qr mod 4.
+Definition rw_retain (qr : N) (old : bool) : bool :=
+  if qr / 4 =? 0 then old else if qr / 4 =? 1 then false else true.
 
 Record hooks := {
   h_auth : option (list (str * str * N) * N);            (* (user, pass, code) table, default code *)
@@ -325,7 +330,7 @@ Definition will_action (cid : str) (s : st) : msg_action :=
   if h_will_on (b_hooks s) then opt_or (aget cid (h_will (b_hooks s))) MAccept else MAccept.
 
 Definition with_topic_payload_qos (t p : str) (q : N) (m : msg) : msg :=
-  {| m_dup := m_dup m; m_qos := q; m_retained := m_retained m; m_topic := t; m_payload := p;
+  {| m_dup := m_dup m; m_qos := rw_qos q; m_retained := rw_retain q (m_retained m); m_topic := t; m_payload := p;
      m_pid := m_pid m; m_ctype := m_ctype m; m_corr := m_corr m; m_expiry := m_expiry m; m_pfmt := m_pfmt m;
      m_resp := m_resp m; m_subids := m_subids m; m_uprops := m_uprops m |}.
 
@@ -797,7 +802,7 @@ Definition with_topic (t : str) (m : msg) : msg :=
      m_resp := m_resp m; m_subids := m_subids m; m_uprops := m_uprops m |}.
 
 Definition rewrite_msg (t p : str) (q : N) (m : msg) : msg :=
-  {| m_dup := m_dup m; m_qos := q; m_retained := m_retained m; m_topic := t; m_payload := p;
+  {| m_dup := m_dup m; m_qos := rw_qos q; m_retained := rw_retain q (m_retained m); m_topic := t; m_payload := p;
      m_pid := m_pid m; m_ctype := m_ctype m; m_corr := m_corr m; m_expiry := m_expiry m; m_pfmt := m_pfmt m;
      m_resp := m_resp m; m_subids := m_subids m; m_uprops := m_uprops m |}.
 
